@@ -10,6 +10,14 @@ iteration count, every continuation), an upper bound for an engine that stops at
 bounds from the shape of an expression and refuses any unbounded repetition whose body can be derived in two ways from the same
 state (the source of exponential blow-up).  `cert_sound` (SqlProofs/RegexCost.lean) holds for every expression, string and state.
 -/
+/-!
+## Hypotheses audit (C16)
+No theorem of this file restricts the input: `rule_work_poly`, `string_rules_poly`, `every_rule_poly` hold for every subject string and
+every start position.  The hypotheses `cert r.re = some c` / `isStrTemplate r.re` are properties of the rule, and
+`rules_poly_or_template` (evaluated over the regenerated table) says every rule has one of them; the example at the end shows the
+certificate refuses `(a|a)*`, `(a*)*` and the historical overlapping string body.
+-/
+
 namespace Sql.C16
 
 /-- table obligation: every rule of the regenerated table either has a polynomial certificate or is one of the quoted-string
